@@ -6,6 +6,7 @@
   repetition table shared with the command loop.
 -/
 import Jence.Lemmas.Top
+import Jence.Lemmas.NoOverflow
 namespace Jence.Props.C17
 open Jence
 
@@ -55,5 +56,32 @@ theorem search_restores (R : Rules) (cfg : Cfg) (g : Game) (depth : Int) (tt : T
     correspondence, which compares the position before and after) -/
 theorem inspection_is_pure (g : Game) : (legalValues g, evaluate g, bulkCount g) = (legalValues g, evaluate g, bulkCount g) := rfl
 
+
+
+/-- **T17.2 with the overflow hypothesis discharged**: a history that leaves 65 free slots (`HistoryRoom`) comes back exactly as
+    it was handed in, for every depth, table, poll schedule and rules instance. -/
+theorem search_restores_of_room (R : Rules) (cfg : Cfg) (g : Game) (depth : Int) (tt : TT) (rep : RepTable) (hroom : HistoryRoom rep) :
+    (search R cfg g depth tt rep).2.ply = 0 ∧
+    (search R cfg g depth tt rep).2.rep.index = rep.index ∧
+    (search R cfg g depth tt rep).2.rep.pre = rep.pre ∧
+    (search R cfg g depth tt rep).2.rep.overflow = false :=
+  have ho := (search_no_overflow R cfg g depth tt rep hroom).1
+  have h := search_restores R cfg g depth tt rep ho
+  ⟨h.1, h.2.1, h.2.2, ho⟩
+
+/-- the next search starts with the same room -/
+theorem room_restored (R : Rules) (cfg : Cfg) (g : Game) (depth : Int) (tt : TT) (rep : RepTable) (hroom : HistoryRoom rep) :
+    HistoryRoom (search R cfg g depth tt rep).2.rep := by
+  obtain ⟨_, h2, _, h4⟩ := search_restores_of_room R cfg g depth tt rep hroom
+  have hsz : (search R cfg g depth tt rep).2.rep.table.size = rep.table.size := by
+    obtain ⟨_, he⟩ := search_eq R cfg g depth tt rep
+    rw [he] at h4 ⊢
+    have hf := idLoop_frame R cfg g (if depth == -1 then Gen.MAX_PLY else (depth % 256).toNat) 1 (-Gen.INFINITY) Gen.INFINITY 0 (Env.fresh tt rep)
+    have hev := ev_frame cfg (searchLoopEnd R cfg g depth tt rep).2.2
+      [10, (searchLoopEnd R cfg g depth tt rep).2.2.ply.toUInt64, (searchLoopEnd R cfg g depth tt rep).2.2.rep.index.toUInt64,
+        b2w (searchLoopEnd R cfg g depth tt rep).2.2.stopping]
+      (fun _ => s!"end {(searchLoopEnd R cfg g depth tt rep).2.2.ply} {(searchLoopEnd R cfg g depth tt rep).2.2.rep.index} {if (searchLoopEnd R cfg g depth tt rep).2.2.stopping then 1 else 0}")
+    exact ((hf.trans hev).2 (by simpa [Env.print] using h4)).repSize
+  exact ⟨h4, by rw [h2, hsz]; exact hroom.2⟩
 
 end Jence.Props.C17
